@@ -318,7 +318,7 @@ pub fn run(ctx: &mut Ctx) {
                 base_case(g, sub, variant)
             })
         },
-        t.pick(40_000, 400_000),
+        t.pick(40_000, 1_500_000),
     );
     // fundamental groups of spherical 2D symbols: order 4/K (curvature from the harness's own formula),
     // presented by the textbook presentation (many generators and relators)
@@ -380,7 +380,7 @@ pub fn run(ctx: &mut Ctx) {
                 Some(CosetCase { name: format!("random presentation on {} generators", n), nr_gens: n, rels, order: 0, index: 0, sub, variant })
             })
         },
-        t.pick(20_000, 300_000),
+        t.pick(20_000, 1_000_000),
     );
 }
 
